@@ -10,7 +10,7 @@ out = {
     "setup_cmd": "make -C /verif setup",
     "hooks": {
         "guard": "verif",
-        "enable": "go build/test -tags verif: internal/verifhook.Point calls a registered callback (empty function without the tag); harnesses are injected with go/packages Overlay and `go test -tags verif -overlay`; the replay build additionally gets generated copies of /repo sources in which every Lock()/RLock() statement is preceded by verifhook.Point(\"lock:<file>:<line>\") (scheduling points for recorded interleavings; regenerated from the working tree on every run, never written to /repo)",
+        "enable": "go build/test -tags verif: internal/verifhook.Point calls a registered callback (empty function without the tag); harnesses are injected with go/packages Overlay and `go test -tags verif -overlay`; the replay build additionally gets generated copies of /repo sources in which every Lock()/RLock() statement is preceded by verifhook.Point(\"lock:<file>:<line>\"), every Badger View/Update/NewTransaction/Backup/MaxVersion statement by Point(\"txn:<file>:<line>\"), every Update(..)/Commit() statement by Point(\"commit:<file>:<line>\"), and the closure of an Update starts with Point(\"txnbody:<file>:<line>\") (scheduling points for recorded interleavings and crash candidates; regenerated from the working tree on every run, never written to /repo)",
         "baseline_off_cmd": "cd /repo && GOFLAGS=-mod=mod GOPROXY=off go test -vet=off -count=1 -timeout 25m ./...",
         "source_commits": ["11145cf", "069528d", "ae98eb8"],
         "add_only": True,
